@@ -1087,6 +1087,97 @@ func ruleReaderShutdown(c *Check, p *Program, rule string) {
 			}
 		}
 	})
+	// the sentinel is the nil slice: the collector's answering exit (close, then return) is taken on nil-ness of the
+	// received buffer, never on its length - a data block may decode to zero bytes and must not end the collection
+	{
+		fromBlockChan := func(v ssa.Value) bool {
+			for i := 0; i < 4; i++ {
+				switch x := v.(type) {
+				case *ssa.Extract:
+					v = x.Tuple
+					continue
+				case *ssa.UnOp:
+					if x.Op == token.ARROW {
+						if ch, isCh := x.X.Type().Underlying().(*types.Chan); isCh {
+							_, isSl := ch.Elem().Underlying().(*types.Slice)
+							return isSl
+						}
+					}
+				}
+				break
+			}
+			return false
+		}
+		nilTestOf := func(a Atom) bool {
+			if a.Kind == "isnil" && a.Val && fromBlockChan(a.V) {
+				return true
+			}
+			if a.Kind == "call" {
+				if ci, ok := a.V.(*ssa.Call); ok {
+					if f := staticCallee(ci); f != nil && inModule(f) && len(f.Blocks) == 1 {
+						for _, arg := range ci.Call.Args {
+							if !fromBlockChan(arg) {
+								continue
+							}
+							if r, isR := f.Blocks[0].Instrs[len(f.Blocks[0].Instrs)-1].(*ssa.Return); isR && len(r.Results) == 1 {
+								if at := atomOf(r.Results[0], a.Val); at.Kind == "isnil" && at.Val {
+									if _, isP := at.V.(*ssa.Parameter); isP {
+										return true
+									}
+								}
+							}
+						}
+					}
+				}
+			}
+			return false
+		}
+		lenTestOf := func(a Atom) bool {
+			bo, ok := a.V.(*ssa.BinOp)
+			if !ok || a.Kind != "cmp" {
+				return false
+			}
+			for _, o := range []ssa.Value{bo.X, bo.Y} {
+				if cl, isC := o.(*ssa.Call); isC {
+					if bi, isB := cl.Call.Value.(*ssa.Builtin); isB && bi.Name() == "len" && len(cl.Call.Args) == 1 && fromBlockChan(cl.Call.Args[0]) {
+						return true
+					}
+				}
+			}
+			return false
+		}
+		sendsNil := false
+		for _, f := range familyFns(readerLoop) {
+			allInstrs(f, func(in ssa.Instruction) {
+				if sd, ok := in.(*ssa.Send); ok && isNilConst(sd.X) {
+					sendsNil = true
+				}
+			})
+		}
+		nilExit, lenExit := false, ""
+		allInstrs(collector, func(in ssa.Instruction) {
+			if !isReturn(in) {
+				return
+			}
+			hasNil, hasLen := false, false
+			for _, a := range atomsOfBlockLocal(in.Block()) {
+				if nilTestOf(a) {
+					hasNil = true
+				}
+				if lenTestOf(a) {
+					hasLen = true
+				}
+			}
+			if hasNil {
+				nilExit = true
+			} else if hasLen {
+				lenExit = p.InstrPos(in)
+			}
+		})
+		if sendsNil {
+			c.Cond(nilExit && lenExit == "", rule, "initR.collector#sentinel-is-nil", p.Pos(collector.Pos()), "the end-of-collection sentinel sent by the reader goroutine is the nil slice; the collector leaves on nil-ness of the received buffer, not on its length (a block may decode to zero bytes)", "the answering return is governed by a nil test of the received buffer", fmt.Sprintf("return governed by a nil test of the received buffer: %v; return governed only by a length test: %s - an empty data block would end the collection while the reader goroutine is still sending (send on closed channel, or a goroutine blocked forever)", nilExit, lenExit))
+		}
+	}
 	c.Cond(nClose >= 2 && nFwd >= 1 && !missed, rule, "initR.collector#answers", p.Pos(collector.Pos()), "the collector closes the per-block channel after forwarding a buffer and when it receives the sentinel (the reader goroutine waits for that)", fmt.Sprintf("%d close(c) sites; every forwarded buffer is followed by a close", nClose), fmt.Sprintf("close(c) sites: %d; forwarded buffers: %d; a forwarded buffer is not followed by close(c): %v", nClose, nFwd, missed))
 }
 
